@@ -194,4 +194,8 @@ end
 def reverseInto (ops : List Op) : Option (List Op) :=
   (reverseEach ops).map List.reverse
 
+/-- `_populate_migration_script` (autogenerate/compare.py): after `_produce_net_changes` has filled
+`upgrade_ops`, `upgrade_ops.reverse_into(downgrade_ops)` -/
+def populate (upgradeOps : List Op) : Option (List Op) := reverseInto upgradeOps
+
 end Model.Reverse
